@@ -305,6 +305,52 @@ func init() {
 		buf, _ := st[len(st)-1].([]Value)
 		return mkStr(buf)
 	}
+	// reflect.ValueOf(x).Pointer() (data.List/Map.Equals): identity token of the backing object.
+	intrinsics["reflect.ValueOf"] = func(in *Interp, _ *frame, a []Value) Value { return ReflVal{a[0]} }
+	intrinsics["(reflect.Value).Pointer"] = func(in *Interp, _ *frame, a []Value) Value {
+		rv, ok := a[0].(ReflVal)
+		if !ok {
+			in.unsupported("reflect.Value.Pointer on an engine-foreign value")
+		}
+		v := rv.V
+		if i, ok := v.(Iface); ok {
+			v = i.V
+		}
+		if in.objIDs == nil {
+			in.objIDs = map[interface{}]uint64{}
+		}
+		id := func(k interface{}) uint64 {
+			if x, ok := in.objIDs[k]; ok {
+				return x
+			}
+			x := uint64(0xc000000000 + 64*len(in.objIDs))
+			in.objIDs[k] = x
+			return x
+		}
+		switch v := v.(type) {
+		case []Value:
+			if v == nil {
+				return uint64(0)
+			}
+			if cap(v) == 0 {
+				return uint64(0x5a5a00) // runtime.zerobase: shared by all zero-capacity slices
+			}
+			full := v[:cap(v)]
+			return id(&full[0]) + 8*uint64(cap(v)-cap(v[0:])) // slices of one array share the array
+		case *MapV:
+			if v == nil {
+				return uint64(0)
+			}
+			return id(v)
+		case *Value:
+			if v == nil {
+				return uint64(0)
+			}
+			return id(v)
+		}
+		in.unsupported(fmt.Sprintf("reflect.Value.Pointer of %T", v))
+		return nil
+	}
 	intrinsics["reflect.TypeOf"] = func(in *Interp, _ *frame, a []Value) Value { return Iface{} }
 	intrinsics["runtime/debug.Stack"] = func(in *Interp, _ *frame, a []Value) Value { return []Value(nil) }
 	intrinsics["math/rand.Intn"] = func(in *Interp, _ *frame, a []Value) Value {
